@@ -130,7 +130,7 @@ impl Check for ModelCheck {
             if let Some(mut v) = judge_against_model(self.property, &rep, &sc, nsetup + i, &db, q, &self.allowed_dev, stats) {
                 // re-home the violation into a single-query scenario so that the
                 // replay file and the shrinker work on it alone
-                let aux = SqlAux { tables: tables.clone(), views: vec![], query: q.clone(), knobs: knobs.clone(), chunk, dev: Dev::default() };
+                let aux = SqlAux { tables: tables.clone(), views: vec![], query: q.clone(), knobs: knobs.clone(), chunk, dev: self.allowed_dev.clone() };
                 let (sc1, idx) = scenario_for(&aux, &sim, sc.entropy);
                 let mut v1 = v.clone();
                 v1.scenario = sc1;
